@@ -70,8 +70,15 @@ func genDistrAccount(t *rapid.T, label string, o DistrGenOpts, asSource bool, us
 			}
 			a = DAcc{Type: tModule, Id: id}
 		case 5, 6:
-			k := rapid.IntRange(0, 6).Draw(t, l+"_base")
+			k := rapid.IntRange(0, 7).Draw(t, l+"_base")
 			switch {
+			case k == 7:
+				// the governance module account, named by its address: the one module account the application
+				// lets receive ordinary transfers (a treasury)
+				if asSource {
+					continue
+				}
+				a = DAcc{Type: tBase, Id: ModuleAddr("gov").String()}
 			case k <= 2:
 				a = DAcc{Type: tBase, Id: KeyAcc(5 + k).Addr.String()}
 				if rapid.IntRange(0, 4).Draw(t, l+"_upper") == 0 {
